@@ -71,6 +71,9 @@ PMask ==
   \/ /\ "F10" \in Dev
      /\ \/ (Ev.kind = "s/c" /\ Ev.path \in LeakyDivC)
         \/ (Ev.kind = "s/s'" /\ Ev.path \in LeakyQuot /\ Ev.secret = "e")
+\* range proofs inside the proofs: floor(d / c)^2 / 2^T of a proof of square must stay 2^64 away from the value the
+\* range proof is about (F16 as is: it is that value)
+PRangeMask == Ev.bits >= 64 \/ "F16" \in Dev
 \* (drift) the requested lengths of the draws; not a verdict
 PMaskLens == TRUE
 PMaskSummary == Ev.responses >= 1 /\ Ev.challenges >= 1
@@ -79,6 +82,8 @@ PUnblinded == Len(Ev.hits) = 0
 PSharedBlinding == Len(Ev.hits) = 0
 \* the blinding draws of proofs made on different threads (and one after the other) are all different
 PFresh == Ev.distinct = Ev.draws /\ Ev.draws >= 10
+\* the per-attribute commitments of a proof use independent randomness: with the g-parts stripped no two are equal or cancel
+PCommitRand == Len(Ev.hits) = 0
 \* Boudot proof: the randomness of the commitment is split independently on the two sides; with the g-parts
 \* stripped (the witness holder can), the four parts multiply to 1 and no two of them are equal or cancel --
 \* otherwise a product of two proof fields is a function of the hidden value alone (a dictionary attack)
@@ -90,7 +95,7 @@ PKeyFacts ==
   /\ Ev.p_prime = TRUE /\ Ev.q_prime = TRUE /\ Ev.p_half_prime = TRUE /\ Ev.q_half_prime = TRUE
   /\ Ev.p_bits = Ev.secparam + 1 /\ Ev.q_bits = Ev.secparam + 1
   /\ Ev.elements_qr = TRUE /\ Ev.cpk_issuer_qr = TRUE /\ Ev.cpk_issuer_modulus_is_issuer = TRUE
-  /\ Ev.cpk_own_in_range = TRUE
+  /\ Ev.cpk_own_in_range = TRUE /\ Ev.cpk_own_not_square = TRUE
   /\ Ev.cpk_own_modulus_bits \in {2 * Ev.secparam + 1, 2 * Ev.secparam + 2}
   /\ IsTrue(Ev.roundtrip)
 PRandomFacts == Ev.random_bits_exact = TRUE /\ Ev.rand_int_in_range = TRUE /\ Ev.rand_int_endpoints = TRUE
@@ -110,11 +115,13 @@ Pred ==
     [] Ev.op = "CLDictionary" -> PDictionary
     [] Ev.op = "CLMask"       -> PMask
     [] Ev.op = "CLMaskLens"   -> PMaskLens
+    [] Ev.op = "CLRangeMask"  -> PRangeMask
     [] Ev.op = "CLMaskSummary" -> PMaskSummary
     [] Ev.op = "CLUnblinded"  -> PUnblinded
     [] Ev.op = "CLSharedBlinding" -> PSharedBlinding
     [] Ev.op = "CLFresh"      -> PFresh
     [] Ev.op = "CLRangeSplit" -> PRangeSplit
+    [] Ev.op = "CLCommitRand" -> PCommitRand
     [] Ev.op = "CLInfoLink"   -> TRUE            \* informational (F11, outside the listed properties)
     [] Ev.op = "CLKeyFacts"   -> PKeyFacts
     [] Ev.op = "CLRandomFacts" -> PRandomFacts
